@@ -337,8 +337,14 @@ async fn prepare(path: &Path, migs: &[Value], vt: &str, init: &Value) -> Result<
     rm_db(path);
     let k = init["k"].as_u64().unwrap_or(0) as usize;
     let mut stmts: Vec<String> = Vec::new();
-    for m in migs.iter().take(k) {
-        stmts.extend(sqlite_stmts(m));
+    if let Some(given) = init["stmts"].as_array() {
+        // explicit preparation list (histories whose statements carry their own transaction control are
+        // prepared from the effective components)
+        stmts.extend(given.iter().filter_map(|x| x.as_str().map(|s| s.to_string())));
+    } else {
+        for m in migs.iter().take(k) {
+            stmts.extend(sqlite_stmts(m));
+        }
     }
     let applied = stmts.clone();
     let layout = init["vt"].as_str().unwrap_or("absent").to_string();
@@ -587,8 +593,21 @@ pub fn main(dispatch: Dispatch, case_hash: &str, manifest_dir: &str) {
                 Err(e) => runs.push(json!({"name": run["name"], "harness_error": e})),
             }
         }
+        // catalogs of explicitly given statement lists (direct execution on a fresh database)
+        let mut extra = Vec::new();
+        for (n, key) in spec["refcat_keys"].as_array().cloned().unwrap_or_default().iter().enumerate() {
+            let stmts: Vec<String> = key.as_array().map(|a| a.iter().filter_map(|x| x.as_str().map(|s| s.to_string())).collect()).unwrap_or_default();
+            let path = work.join(format!("refx_{}.db", n));
+            rm_db(&path);
+            let cat = match exec_all(&path, &stmts).await {
+                Ok(()) => match observe(&path, "\u{0}no-such-table").await { Ok(o) => o["catalog"].clone(), Err(e) => json!(format!("ERROR {}", e)) },
+                Err(e) => json!(format!("ERROR {}", e)),
+            };
+            rm_db(&path);
+            extra.push(json!({"stmts": stmts, "catalog": cat}));
+        }
         json!({"case_hash": case_hash, "project": project.display().to_string(), "prefix": prefix, "migs": migs,
-               "refcats": refs, "runs": runs})
+               "refcats": refs, "refcats_extra": extra, "runs": runs})
     });
     std::fs::write(&args[2], serde_json::to_string(&out).unwrap()).expect("write out");
 }
